@@ -246,6 +246,23 @@ end SetD
 
 def handle : Handler := fun op a => do
   match op with
+  | "configure" =>
+    -- {"calls": [{"base_url": v?, "location": v?, "rate_limit": v?, "generation": v?, "output": v?, "app": v?}]}, v: nat | null; absent = NOT_SET
+    let dec : Json → String → Except String (Option (Option Nat)) := fun j k =>
+      match j with
+      | .obj kvs => (match kvs.find? (·.1 == k) with
+        | none => pure none
+        | some (_, .null) => pure (some none)
+        | some (_, v) => do return some (some (← asNat v)))
+      | _ => .error "call"
+    let calls ← asList (fun j => do
+      return ({ baseUrl := ← dec j "base_url", location := ← dec j "location", rate := ← dec j "rate_limit",
+                generation := ← dec j "generation", output := ← dec j "output", app := ← dec j "app" } :
+              SV.Model.C12Settings.ConfigureCall)) (← field a "calls")
+    let s := calls.foldl SV.Model.C12Settings.configure ⟨none, none, none, some 0, some 0, none⟩
+    let enc : Option Nat → Json := fun o => match o with | some n => jnat n | none => .null
+    return jobj [("base_url", enc s.baseUrl), ("location", enc s.location), ("rate_limit", enc s.rate),
+                 ("generation", enc s.generation), ("output", enc s.output), ("app", enc s.app)]
   | "settings" =>
     let ag ← (match ← asStr (a.getD "against" (.str "active")) with
       | "active" => pure SV.Model.C12Settings.Against.active | "stock" => pure SV.Model.C12Settings.Against.stock
